@@ -266,13 +266,14 @@ func (m *BaseUndoLogManager) Undo(ctx context.Context, dbType types.DBType, xid 
 	if err != nil {
 		return err
 	}
+	committed := false
 	defer func() {
 		if r := recover(); r != nil {
 			err = fmt.Errorf("undo panic, xid: %s, branchID: %d, %v", xid, branchID, r)
 		}
-		// a failed undo must stay a failure for the caller and must not leave
-		// the local transaction open
-		if err != nil {
+		// a failed undo must stay a failure for the caller, and no path (failure
+		// or early return) may leave the local transaction open
+		if !committed {
 			if rerr := tx.Rollback(); rerr != nil {
 				log.Errorf("rollback fail, xid: %s, branchID:%s err:%v", xid, branchID, rerr)
 			}
@@ -387,6 +388,7 @@ func (m *BaseUndoLogManager) Undo(ctx context.Context, dbType types.DBType, xid 
 		log.Errorf("[Undo] execute on fail, err: %v", err)
 		return err
 	}
+	committed = true
 	return nil
 }
 
